@@ -502,6 +502,33 @@ def replay(w):
                 if a.shape != b.shape or not np.array_equal(a, b):
                     return True, 'callable of the configuration read back from YAML (%s) behaves differently from the original' % w['route']
             return False, 'ok'
+        if w.get('kind') == 'yaml_reload':
+            # a history on ONE path: save A, load, save B over it, load again (must be B); load twice and edit the first (the second is untouched)
+            fd_, name = tempfile.mkstemp(suffix='.yml')
+            os.close(fd_)
+            try:
+                cfa = S.get_config(w['variant'])
+                _apply_edits(cfa, w['edits'])
+                cfa.to_yaml_file(name)
+                first = S.SiftConfig.from_yaml_file(name)
+                cfb = S.get_config(w['variant2'])
+                refb = _apply_edits(cfb, w['edits2'])
+                cfb.to_yaml_file(name)
+                second = S.SiftConfig.from_yaml_file(name)
+                if second.sift_type != w['variant2'] or _norm(dict(second.store)) != _norm(refb):
+                    return True, 'a file rewritten with a %s configuration %s is read back as %s %s (the configuration saved there BEFORE)' % (
+                        w['variant2'], w['edits2'], second.sift_type, {k: second.store.get(k) for k, _ in w['edits2'] if '/' not in k})
+                second['max_imfs'] = 11
+                third = S.SiftConfig.from_yaml_file(name)
+                if _norm(dict(third.store)) != _norm(refb):
+                    return True, 'editing a configuration loaded from a file changed what a later load of the same file returns'
+                if first.sift_type != w['variant']:
+                    return True, 'the configuration loaded first changed its sift type after the file was rewritten'
+            except Exception as ex:
+                return True, 'save / load history on one path raised %s: %s' % (type(ex).__name__, str(ex)[:160])
+            finally:
+                os.unlink(name)
+            return False, 'ok'
         if w.get('kind') == 'keypath':
             cfg = S.get_config(w['variant'])
             try:
@@ -615,6 +642,16 @@ def refute(tier, seed, emit):
                     ok, msg = replay(w)
                     if ok:
                         emit.violation('yaml-roundtrip:%s:empty-configuration' % route, w, msg)
+    # histories on one file path: the loader must read the file as it is NOW, and hand out independent objects
+    emit.scope('save / load histories on ONE path: save configuration A, load, save configuration B (other options, other variant) over it, load: B; edit a loaded configuration, load again: unchanged - %d pairs of variants x edit sequences' % (len(variants) * 3))
+    for vi, v in enumerate(variants):
+        for ei in range(3):
+            v2 = variants[(vi + 1 + ei) % len(variants)] if ei else v
+            emit.case(('reload', v, v2, ei), nontrivial=True, contract='SiftConfig.yaml')
+            w = {'kind': 'yaml_reload', 'variant': v, 'edits': EDITS[ei], 'variant2': v2, 'edits2': EDITS[(ei + 1) % len(EDITS)]}
+            ok, msg = replay(w)
+            if ok:
+                emit.violation('yaml-roundtrip:file:reload-of-a-rewritten-path', w, msg)
     # seeded random edit sequences over the configuration's own key paths (every depth), values of every kind
     import emd
     r = rng(seed, 18)
